@@ -247,11 +247,18 @@ async fn run_sender_v5(sink: ntex_mqtt::v5::MqttSink, kind: SK, j: usize, app: A
             });
         }
         SK::Q1NoBlock => {
-            sink.publish_ack_cb(|_, _| {});
+            // the callback is the completion of this send: (id, false) = acknowledged, (id, true) = connection gone
+            let app_cb = app.clone();
+            sink.publish_ack_cb(move |ack, disconnected| {
+                let id = ack.packet_id;
+                if let Ok(mut a) = app_cb.try_borrow_mut() {
+                    a[j].results.push(if disconnected { format!("err:cb-disconnected:{id}") } else { format!("ok:{id}:cb") });
+                }
+            });
             if sink.is_ready() {
                 let r = sink.publish(bs("t")).send_at_least_once_no_block(by(&[tag(j)]));
                 push(match &r {
-                    Ok(()) => "ok".into(),
+                    Ok(()) => "sent".into(),
                     Err(e) => format!("err:{e:?}"),
                 });
             } else {
@@ -457,11 +464,17 @@ async fn run_sender_v3(sink: ntex_mqtt::v3::MqttSink, kind: SK, j: usize, app: A
             });
         }
         SK::Q1NoBlock => {
-            sink.publish_ack_cb(|_, _| {});
+            // the callback is the completion of this send: (id, false) = acknowledged, (id, true) = connection gone
+            let app_cb = app.clone();
+            sink.publish_ack_cb(move |id, disconnected| {
+                if let Ok(mut a) = app_cb.try_borrow_mut() {
+                    a[j].results.push(if disconnected { format!("err:cb-disconnected:{id}") } else { format!("ok:{id}:cb") });
+                }
+            });
             if sink.is_ready() {
                 let r = sink.publish(bs("t")).send_at_least_once_no_block(by(&[tag(j)]));
                 push(match &r {
-                    Ok(()) => "ok".into(),
+                    Ok(()) => "sent".into(),
                     Err(e) => format!("err:{e:?}"),
                 });
             } else {
@@ -1009,7 +1022,8 @@ impl Out {
                 .count();
             // a truncated streamed publish at the tail also counts as "written"
             let in_tail = matches!(kind, SK::Stream { .. }) && !tail.is_empty() && tail.windows(2).any(|w| w[0] == b's' && w[1] == b'0' + j as u8);
-            let first_ok = s.results.iter().filter(|r| r.starts_with("ok")).count();
+            // the non-blocking API reports "sent" when the packet was handed over ("ok" is its later callback)
+            let first_ok = s.results.iter().filter(|r| if kind == SK::Q1NoBlock { r.as_str() == "sent" } else { r.starts_with("ok") }).count();
             let first_err = s.results.iter().any(|r| r.starts_with("err"));
             let written = on_wire + usize::from(in_tail);
             match kind {
